@@ -42,7 +42,7 @@ theorem check_unique (members : String → List Int) (k : Kind) (b : Bits) (v v'
       cases v' with
       | enum c' m' =>
         simp only [hm, Bool.not_true, Bool.false_or, beq_iff_eq, Bool.and_eq_true] at h h'
-        rw [h.1.1, h.2, h'.1.1, h'.2]
+        rw [h.1.1.1, h.1.2, h'.1.1.1, h'.1.2]
       | _ => simp at h'
     | _ => simp at h
   | _ =>
